@@ -23,6 +23,9 @@ CURATED_TEXT = {
 'two_skips': "token A B C Ws Cm; skip Ws Cm; start s; s: (A B)* C;",
 # ---- parts
 'parts': "token A B C D Ws; skip Ws; start s; part x y; s: A x* D; x: B y; y: C [A];",
+'parts_inner_loop': "token A B C D E; start s; part p; s: q E; p: q D; q: A B* [C];",
+'parts_inner_opt': "token A B C D E; start s; part p; s: q E q; p: A q D; q: B [C] ;",
+'parts_inner_plus': "token A B C D E Ws; skip Ws; start s; part p r; s: p E; p: q D; r: C q q; q: A (B C)+ ;",
 'part_shared': "token A B C; start s; part t; s: t A t; t: B C*;",
 # ---- node operators
 'rename': "token A B C; start s; s: x*; x: A @xa | B C @xb | C;",
@@ -80,6 +83,9 @@ CURATED_TEXT = {
 'pratt_postfix': "token N P X L R; start s; s: e; e: e X | e P e | e L e R | N;",
 'pratt_prefix': "token N P M T; start s; s: e; e: e T e | M e | e P e | N;",
 'pratt_rename': "token N P T L R Ws; skip Ws; start s; s: e; e: e T e @mul | e P e @add | N @num | L e R @paren | lit ^; lit: R R;",
+'pratt_rename_mixed': "token N P L R; start s; s: e; e: e P e | e L e R @index | N;",
+'pratt_rename_mixed2': "token N P M X T; start s; s: e; e: e X @post | e T e | M e @neg | e P e @add | N;",
+'pratt_rename_atom_only': "token N P Q L R; start s; s: e; e: e P e | e Q e | N @num | L e R;",
 'pratt_call': "token N L R C P; start s; s: e; e: e P e @bin | e args @call | N @name; args: L [e (C e)*] R;",
 'pratt_in_loop': "token N P S; start s; s: (e S)*; e: e P e | N;",
 'pratt_pred': "token N P M; start s; s: e; e: ?1 e M e | e P e | N;",
@@ -262,10 +268,10 @@ def _pratt(g, name):
     kinds = rng.sample(['in', 'in', 'pre', 'post'], rng.choice([2, 3]))
     for k, o in zip(kinds, ops):
         if k == 'in':
-            br.append(seq(ref(name), tok(o), ref(name), rename('bin')))
+            br.append(seq(ref(name), tok(o), ref(name), rename('bin')) if rng.random() < 0.6 else seq(ref(name), tok(o), ref(name)))
             if rng.random() < 0.4: right.append(o)
-        elif k == 'pre': br.append(seq(tok(o), ref(name), rename('pre')))
-        else: br.append(seq(ref(name), tok(o), rename('post')))
+        elif k == 'pre': br.append(seq(tok(o), ref(name), rename('pre')) if rng.random() < 0.6 else seq(tok(o), ref(name)))
+        else: br.append(seq(ref(name), tok(o), rename('post')) if rng.random() < 0.6 else seq(ref(name), tok(o)))
     br.append(seq(tok('A'), rename('atom')) if rng.random() < 0.5 else seq(tok('A'), ELIDE))
     return alt(*br), right
 
